@@ -565,3 +565,13 @@ B("C06.arc_center_translation", ["C06", "C05", "C14"], ARC, "bounded_arc_center_
   "centre translated exactly (1e-3) and the right-angle verdict unchanged wherever the arc sits on the page",
   "17 arcs (radius 0.5 and 1, four quadrants, both sweeps, one non right-angle arc) x columns 0..400 x rows 0..40 step 3 (thorough 0..200); "
   "f32::powf / sqrt chains: not attempted in Kani")
+
+FSPAN = "buffer/fragment_buffer/fragment_span.rs"
+K("C11.fragment_span_scale", ["C11", "C10"], FSPAN, "check_fragment_span_scale", "FragmentSpan::scale",
+  "the fragment is scaled, the source span is untouched (whole struct)", kind="bounded", bound="one-cell span, Line fragment; cell, line, scale symbolic", timeout=300)
+K("C06.fragment_span_abs", ["C06", "C10"], FSPAN, "check_fragment_span_abs", "FragmentSpan::absolute_position / cells / hit_cell / is_bounded",
+  "the fragment is translated, the source span is untouched (whole struct)", kind="bounded", bound="one-cell span, Line fragment; cells and line symbolic", timeout=300)
+K("C10.fragment_span_merge", ["C10", "C09", "C04"], FSPAN, "check_fragment_span_merge", "FragmentSpan::merge",
+  "Some exactly when Fragment::merge is Some; the fragment is that result; the spans are concatenated in order (no source cell lost)",
+  kind="bounded", bound="one-cell spans; cells symbolic", timeout=300,
+  assumes=["<Fragment as Merge>::merge replaced by an opaque result (its contract: C03.fragment_merge_dispatch)"])
